@@ -66,6 +66,7 @@ SAFE = {
     "core::str::<impl str>::len", "core::str::<impl str>::chars", "core::str::<impl str>::bytes", "core::str::<impl str>::as_bytes",
     "core::str::from_utf8", "core::char::methods::<impl char>::len_utf8", "core::char::methods::<impl char>::from_u32",
     "core::char::convert::<impl core::convert::From<u8> for char>::from",
+    "core::num::NonZero::<T>::new", "core::num::NonZero::<T>::get", "core::char::convert::<impl core::convert::TryFrom<char> for u8>::try_from",
     "tinyvec::ArrayVec::<A>::len", "tinyvec::ArrayVec::<A>::new", "tinyvec::ArrayVec::<A>::capacity", "tinyvec::ArrayVec::<A>::clear",
     "tinyvec::ArrayVec::<A>::iter", "tinyvec::ArrayVec::<A>::iter_mut", "tinyvec::ArrayVec::<A>::pop",
     "tinyvec::ArrayVec::<A>::as_slice", "tinyvec::ArrayVec::<A>::as_mut_slice",
